@@ -32,7 +32,6 @@ using namespace ::verif;
 
 typedef Raster<int> IRaster;
 
-static const int DISP_SIZE = 16;
 
 class Probe : public DeterministicDispersalKernel<IRaster>
 {
@@ -103,6 +102,20 @@ static double kernel_fn(const std::string& k, bool want_pdf, double scale, doubl
     throw std::runtime_error("unknown kernel name " + k);
 }
 
+// The dispersers raster is the smallest one containing every source cell of the
+// case, so that the generator controls its shape (rows != cols, single row, ...).
+static void disp_shape(const std::vector<std::string>& t, size_t pos, int& rows, int& cols)
+{
+    rows = 1;
+    cols = 1;
+    int nb = std::stoi(t.at(pos++));
+    for (int b = 0; b < nb; b++) {
+        rows = std::max(rows, std::stoi(t.at(pos)) + 1);
+        cols = std::max(cols, std::stoi(t.at(pos + 1)) + 1);
+        pos += 4;
+    }
+}
+
 static std::string run_batches(
     Probe& kernel, IRaster& disp, const std::vector<std::string>& t, size_t pos)
 {
@@ -137,7 +150,9 @@ int main(int argc, char** argv)
             std::vector<double> w;
             for (int i = 0; i < rows * cols; i++)
                 w.push_back(std::stod(t.at(4 + i)) / den);
-            IRaster disp(DISP_SIZE, DISP_SIZE, 0);
+            int drows, dcols;
+            disp_shape(t, 4 + (size_t)rows * cols, drows, dcols);
+            IRaster disp(drows, dcols, 0);
             std::string res = guarded([&] {
                 Probe kernel(DispersalKernelType::Exponential, disp, 0.5, 1.0, 1.0, 1.0);
                 kernel.overwrite(rows, cols, w);
@@ -146,7 +161,9 @@ int main(int argc, char** argv)
             std::printf("%d %s\n", k, res.c_str());
         }
         else if (t[0] == "W") {
-            IRaster disp(DISP_SIZE, DISP_SIZE, 0);
+            int drows, dcols;
+            disp_shape(t, 7, drows, dcols);
+            IRaster disp(drows, dcols, 0);
             std::string res = guarded([&] {
                 Probe kernel(
                     type_of(t.at(1)),
